@@ -64,7 +64,10 @@ class BufferReader {
     if (length_bytes > (size_ - index_))
       return ErrorStatus::ReadLimitReached;
 
-    std::memcpy(begin, &buffer_[index_], length_bytes);
+    // Zero-length transfers may come with null pointers (e.g. the data() of an
+    // empty vector), which memcpy does not accept.
+    if (length_bytes > 0)
+      std::memcpy(begin, &buffer_[index_], length_bytes);
     index_ += length_bytes;
     return {};
   }
